@@ -1,6 +1,7 @@
 import MoqModel.Render
 import MoqModel.Sexp
 import MoqModel.WF
+import MoqModel.GoFile
 /-
   Driver: reads one `(case …)` per line on stdin, prints the model's projections.
   Output: lines `key<TAB>value` (value escaped), terminated by a line `end<TAB><id>`.
@@ -28,7 +29,13 @@ def runCase (id : Str) (inp : Input) : IO Unit := do
     let d := a.toData inp
     match renderNoop d with
     | none => kv "err" s%"<template execution failed>"
-    | some t => kv "noop" t
+    | some t =>
+      kv "noop" t
+      match genFile d with
+      | none => kv "gf" s%"none"
+      | some f =>
+        let t2 := printFile f
+        if t2 = t then kv "gf" s%"eq" else do kv "gf" s%"diff"; kv "gftext" t2
     kv "imports" (Str.join s%";" (d.imports.map fun i => i.alias ++ s%" " ++ i.path))
     kv "pred.imports" (bstr (a.importsOK && sortedByPath d.imports))
     kv "pred.names" (bstr (a.namesOK inp.stub))
